@@ -262,6 +262,9 @@ pub enum What {
     Blackhole { side: Side },
     DropMux { side: Side },
     Wake(u8),
+    /// the sink of `side` stops being writable (poll_ready / flush / close stay Pending, nothing it has in flight is delivered):
+    /// a peer that no longer reads, without any error
+    Wedge { side: Side },
     /// virtual time advances by one keepalive interval (sides with `Case::keepalive` queue a Ping)
     Tick,
 }
@@ -330,6 +333,12 @@ pub struct Case {
     /// Some(n): the callers of the bind requests give up (drop the future) when Wake(n) fires
     #[serde(default)]
     pub bind_cancel: Option<u8>,
+    /// buffering transport on that side (see `Dir::flush_waits`)
+    #[serde(default)]
+    pub flush_waits: [bool; 2],
+    /// keepalive timeout of the sides with `keepalive`, in ticks (0 = none)
+    #[serde(default)]
+    pub keepalive_timeout_ticks: u8,
 }
 
 impl Default for BindPolicy {
@@ -358,6 +367,8 @@ impl Default for Case {
             keepalive: [false, false],
             step_bound: 0,
             bind_cancel: None,
+            flush_waits: [false, false],
+            keepalive_timeout_ticks: 0,
         }
     }
 }
